@@ -136,10 +136,31 @@ def default_config_gens() -> list:
              "dbl": [0, 65, 1024], "ov": [], "noflags": True} for sig, comps in roots]
 
 
+def unnamed_gens() -> list:
+    """Unnamed parameters (ABI "name": ""): siblings of one type get the same name prefix; they still have to be
+    distinct, independent symbols."""
+    u = {"k": "uint", "n": 256, "c": []}
+    a = {"k": "address", "n": 0, "c": []}
+    bo = {"k": "bool", "n": 0, "c": []}
+    b = {"k": "bytes", "n": 0, "c": []}
+    arr = {"k": "darr", "n": 0, "c": [u]}
+    tup = {"k": "tuple", "n": 0, "c": [u, u]}
+    roots = [
+        ("(uint256,uint256)", [u, u]),
+        ("(address,bool,address)", [a, bo, a]),
+        ("(bytes,bytes)", [b, b]),
+        ("(uint256[],uint256[])", [arr, arr]),
+        ("((uint256,uint256),(uint256,uint256))", [tup, tup]),
+        ("(uint256,bytes,uint256)", [u, b, u]),
+    ]
+    return [{"h": 0, "cc": 1, "sig": sig, "t": {"k": "tuple", "n": 0, "c": comps}, "dal": [0, 1, 2],
+             "dbl": [0, 65, 1024], "ov": [], "noflags": True, "unnamed": True} for sig, comps in roots]
+
+
 def conformance(chk: Check, P: dict, work, rnd, tier: str, recs) -> dict:
     """Streams the signatures through build (real mk_calldata) -> TLC (AbiRun) -> judge, one batch at a
     time; the extra cases (exploration, probes, negative controls) ride along with the last batch."""
-    recs = list(recs) + default_config_gens()
+    recs = list(recs) + default_config_gens() + unnamed_gens()
     jobs = [(i + 1, g, P["cap"], chk.seed, P["all_values"], P["ngen"]) for i, g in enumerate(recs)]
     batches = [jobs[i : i + P["batch"]] for i in range(0, len(jobs), P["batch"])]
     pool = None
